@@ -111,6 +111,7 @@ def coq_eval(name, text, timeout=900):
     """Compile a generated cases file under build/cases and return coqc's stdout (raises on failure)."""
     d = os.path.join(env.BUILD, 'cases')
     os.makedirs(d, exist_ok=True)
+    name = f'{name}_p{os.getpid()}'          # concurrent checks never share a cases file
     path = os.path.join(d, name + '.v')
     open(path, 'w').write(text)
     deps = set()
